@@ -212,7 +212,10 @@ def coq_build(pid, prop, timeout=1500):
         if os.path.exists(vo):
             os.remove(vo)
         t0 = time.time()
-        p = subprocess.run(["timeout", str(timeout), "make", "-j%d" % NCPU, "theories/Properties_%s.vo" % pid],
+        # every file of the property (also those only the extraction uses) + the property theorems
+        targets = ["theories/Properties_%s.vo" % pid] + [os.path.relpath(f, COQ)[:-2] + ".vo" for f in sorted(glob.glob(os.path.join(TH, pid, "*.v")))
+                                                         if os.path.basename(f) != "Extract.v"]
+        p = subprocess.run(["timeout", str(timeout), "make", "-j%d" % NCPU] + targets,
                            cwd=COQ, stdout=subprocess.PIPE, stderr=subprocess.STDOUT, text=True)
         res["log"] = p.stdout
         res["coq_wall_s"] = round(time.time() - t0, 2)
